@@ -440,7 +440,9 @@ Proof.
 Qed.
 
 (* the analysed window: a crash between putCaches and putNewIDs inside newUUID leaves a cache entry
-   for the version id that the (uncorrected, "v > versionID") counter hands out again *)
+   for the version id that the (uncorrected, "v > versionID") counter hands out again.  The entry
+   names no node of any repo: the next start drops it (loadVersion0, "Found version id ... that is in
+   no repo"), so the id -- never acknowledged -- is issued again and then names exactly one uuid. *)
 Definition w_ops : list pop := [PNewRepo 11; PCommit 1 1].
 Definition w_state : pmgr * image :=
   let C := w_conf in
@@ -453,8 +455,8 @@ Lemma version_id_reissued_after_crash :
   let ws := snd (pstep C m (PNewVersion 1 1 None 12)) in
   match recover C (apply_ws img (firstn 2 ws)) with
   | Ok (mr, _) =>
-    aget 2 (m_v2u mr) = Some 12 /\ m_vid mr = 2 /\          (* orphan entry for version 2, counter still 2 *)
-    (let '(m2, v, _) := new_uuid mr 13 in v = 2 /\ aget 2 (m_v2u m2) = Some 13) /\   (* handed out again, entry replaced *)
+    aget 2 (m_v2u mr) = None /\ m_vid mr = 2 /\             (* the orphan entry for version 2 is dropped, counter still 2 *)
+    (let '(m2, v, _) := new_uuid mr 13 in v = 2 /\ aget 2 (m_v2u m2) = Some 13) /\   (* handed out again, to one uuid *)
     pobserve mr = pobserve m                                   (* the orphan was in no repo *)
   | _ => False
   end.
